@@ -149,6 +149,9 @@ struct Run<'a> {
     /// the simulated callback has failed once: from here on only the callback history (C15) is
     /// judged, every other oracle would be looking at an aborted operation
     soft: bool,
+    /// user-code calls one operation may make before the watchdog declares it non-terminating
+    /// (grows with the configured capacity: purge, resize, clone and drop visit every entry)
+    budget: u64,
 }
 
 impl<'a> Run<'a> {
@@ -226,6 +229,7 @@ pub fn execute(t: &Trace, opts: Opts) -> ExecResult {
         log: Vec::new(),
         log_hash: 0xC0FFEE,
         soft: false,
+        budget: EVENT_BUDGET + 256 * (t.header.sizes.iter().take(3).map(|x| (*x).min(1 << 20) as u64).sum::<u64>()),
     };
     world::set_cb_panic(t.cb_panic_at);
     let f1 = t.faults.first().copied().unwrap_or(0);
@@ -239,7 +243,7 @@ pub fn execute(t: &Trace, opts: Opts) -> ExecResult {
     // ---- construction -------------------------------------------------------------------
     #[cfg(feature = "flavor-std")]
     caches::verif::set_sketch_clock(t.header.clock);
-    world::begin_event(EVENT_BUDGET);
+    world::begin_event(run.budget);
     let built = catch_unwind(AssertUnwindSafe(|| subj::factory::build(&t.header)));
     world::end_event();
     let mut slots: Vec<Option<Slot>> = vec![None, None];
@@ -534,7 +538,7 @@ fn lockstep_only(_ev: &Event) -> bool {
 }
 
 fn do_fork(run: &mut Run, slots: &mut [Option<Slot>], step: i64, op: &Op) {
-    world::begin_event(EVENT_BUDGET);
+    world::begin_event(run.budget);
     let r = {
         let a = slots[0].as_ref().unwrap();
         catch_unwind(AssertUnwindSafe(|| a.s.fork()))
@@ -649,7 +653,7 @@ fn check_unchanged(run: &mut Run, slots: &mut [Option<Slot>], which: usize, step
 
 fn do_destroy(run: &mut Run, slots: &mut [Option<Slot>], which: usize, step: i64, op: &Op) {
     let mut sl = slots[which].take().unwrap();
-    world::begin_event(EVENT_BUDGET * 4);
+    world::begin_event(run.budget * 4);
     let r = catch_unwind(AssertUnwindSafe(|| sl.s.destroy()));
     world::end_event();
     if let Err(p) = r {
@@ -683,6 +687,9 @@ fn est_script(code: Code) -> Vec<Vec<EstStep>> {
 
 /// one event against one subject, with all per-step oracles
 fn do_event(run: &mut Run, slots: &mut [Option<Slot>], ti: usize, step: i64, ev: &Event) -> Val {
+    if ev.op.code == Code::Fill {
+        return do_fill(run, slots, ti, step, ev);
+    }
     // boundary hashes of the count-min sketch are resolved against the real row seeds
     let resolved: Option<Op> = if run.t.header.kind == Kind::Tlfu
         && ev.op.fam >= 1
@@ -740,7 +747,7 @@ fn do_event(run: &mut Run, slots: &mut [Option<Slot>], ti: usize, step: i64, ev:
     let calls_before = world::calls();
 
     // ---- the real call ----------------------------------------------------------------------
-    world::begin_event(EVENT_BUDGET);
+    world::begin_event(run.budget);
     let r = {
         let sl = slots[ti].as_mut().unwrap();
         catch_unwind(AssertUnwindSafe(|| sl.s.apply(op)))
@@ -763,7 +770,7 @@ fn do_event(run: &mut Run, slots: &mut [Option<Slot>], ti: usize, step: i64, ev:
                         "non_termination",
                         step,
                         op,
-                        format!("the operation made more than {} calls into user code without returning", EVENT_BUDGET),
+                        format!("the operation made more than {} calls into user code without returning", run.budget),
                     );
                 } else {
                     run.stats.bump("post_fault_hang");
@@ -955,6 +962,270 @@ fn do_event(run: &mut Run, slots: &mut [Option<Slot>], ti: usize, step: i64, ev:
         }
     }
     val
+}
+
+/// Macro event of the scale shapes (`Code::Fill`): many real calls on a large cache. Each call is
+/// judged against a caller-side ledger of the resident entries built from the results alone (no
+/// snapshot per call); the whole is judged by the snapshot that follows: structure (C03), bounds
+/// (C01), conservation (C12/C02: the resident set is exactly what the results said) and the
+/// object ledger (C04). The policy models do not describe it; the events after it are modelled
+/// from the observed post-state as usual.
+fn do_fill(run: &mut Run, slots: &mut [Option<Slot>], ti: usize, step: i64, ev: &Event) -> Val {
+    let op = &ev.op;
+    let kind = run.t.header.kind;
+    let oracles = run.opts.oracles && !run.faulted;
+    let pre = slots[ti].as_mut().unwrap().alpha.take();
+    // the ledger follows every *retained* entry: in 2Q and ARC a put reports an entry when it leaves
+    // the ghost list, not when it turns into a ghost
+    let mut res: std::collections::HashMap<u32, u64> = std::collections::HashMap::new();
+    let have_res = pre.is_some();
+    if let Some(p) = &pre {
+        for l in p.lists.iter() {
+            for e in &l.ents {
+                res.insert(e.ident, e.val);
+            }
+        }
+    }
+    let ghosty = matches!(kind, Kind::TwoQ | Kind::Arc);
+    // keys whose retention the results leave open (2Q/ARC `remove` of a ghost, L3)
+    let mut open: BTreeSet<u32> = BTreeSet::new();
+    let mut distinct_put: BTreeSet<u32> = BTreeSet::new();
+    let cb_id = slots[ti].as_ref().unwrap().s.cb_id();
+    if let Some(id) = cb_id {
+        let _ = world::cb_take(id);
+    }
+    let n = op.n.max(0) as u64;
+    let put_like = matches!(op.fam, 0 | 2 | 4);
+    let subs: &[Code] = match op.fam {
+        0 => &[Code::Put],
+        1 => &[Code::Get],
+        2 | 4 => &[Code::Put, Code::Get],
+        _ => &[Code::Remove],
+    };
+    // fam 4: the read trails the write by `w` keys (an entry is read after it has left the window)
+    let lag = if op.fam == 4 { op.w.min(u32::MAX as u64) as u32 } else { 0 };
+    // put / update / evicted / hit / miss / removed
+    let mut counts = [0i64; 6];
+    let mut errs: Vec<(&'static str, &'static str, String)> = Vec::new();
+    let mut aborted = false;
+    run.stats.bump("fill_events");
+    'outer: for i in 0..n {
+        let k = op.k.wrapping_add((i as u32).wrapping_mul(op.k2));
+        for c in subs {
+            let mut so = Op::new(*c);
+            so.k = k;
+            if *c == Code::Put {
+                so.v = op.v + i;
+            } else if lag != 0 {
+                if (i as u32) < lag {
+                    continue;
+                }
+                so.k = k.wrapping_sub(lag.wrapping_mul(op.k2));
+            }
+            let k = so.k;
+            run.stats.bump("fill_calls");
+            world::begin_event(run.budget);
+            let r = {
+                let sl = slots[ti].as_mut().unwrap();
+                catch_unwind(AssertUnwindSafe(|| sl.s.apply(&so)))
+            };
+            world::end_event();
+            let val = match r {
+                Ok(v) => v,
+                Err(p) => {
+                    let (d, inj, wd) = panic_desc(p);
+                    if inj {
+                        run.faulted = true;
+                        run.fault_step.get_or_insert(step as usize);
+                        run.fault_code.get_or_insert(op.code);
+                    } else if wd {
+                        if !run.faulted {
+                            let d = format!("call #{} of the fill ({}) made more than {} calls into user code without returning", i, so.show(), run.budget);
+                            run.viol("C05", "non_termination", step, op, d);
+                        }
+                    } else if d == SOFT {
+                        run.soft = true;
+                        run.stats.bump("fault_fired:callback_failure");
+                    } else if !run.faulted {
+                        run.viol("C05", "op_panic", step, op, format!("call #{} of the fill ({}) panicked at {}", i, so.show(), d));
+                    }
+                    aborted = true;
+                    break 'outer;
+                }
+            };
+            if !(oracles && have_res) || errs.len() >= 4 {
+                continue;
+            }
+            let mut bad = |p: &'static str, o: &'static str, d: String| errs.push((p, o, format!("call #{} of the fill ({} -> {}): {}", i, so.show(), val.show(), d)));
+            match (*c, &val) {
+                (Code::Put, Val::Put(pr)) => {
+                    let was = res.insert(k, so.v);
+                    let was = if open.remove(&k) { None } else { was };
+                    // ARC may have forgotten a ghost silently: "retained before" is not known
+                    let was_known = if kind == Kind::Arc { None } else { was };
+                    distinct_put.insert(k);
+                    match pr {
+                        PutRes::Put => {
+                            counts[0] += 1;
+                            if let Some(o) = was_known {
+                                bad("C12", "fill_put_result", format!("the key was resident with v{} but the put reports a brand-new key", o));
+                            }
+                        }
+                        PutRes::Update(old) => {
+                            counts[1] += 1;
+                            if let Some(o) = was {
+                                if o != *old {
+                                    bad("C12", "fill_put_result", format!("Update carries v{} but the stored value was v{}", old, o));
+                                }
+                            }
+                        }
+                        PutRes::Evicted(ek, evv) | PutRes::EvictedAndUpdate(ek, evv, _) => {
+                            counts[2] += 1;
+                            if let (PutRes::EvictedAndUpdate(_, _, u), Some(o)) = (pr, was) {
+                                if o != *u {
+                                    bad("C12", "fill_put_result", format!("the update part carries v{} but the stored value was v{}", u, o));
+                                }
+                            }
+                            if let (PutRes::Evicted(..), Some(o)) = (pr, was_known) {
+                                if *ek != k {
+                                    bad("C12", "fill_put_result", format!("the key was resident with v{} but the put does not report an update", o));
+                                }
+                            }
+                            let was_open = open.remove(ek);
+                            match res.remove(ek) {
+                                Some(x) if x == *evv => {}
+                                _ if was_open => {}
+                                Some(x) => bad("C12", "fill_put_result", format!("reports k{} evicted with v{} but its stored value was v{}", ek, evv, x)),
+                                None => bad("C12", "fill_put_result", format!("reports k{} evicted, which was not retained", ek)),
+                            }
+                        }
+                    }
+                }
+                (Code::Get, Val::V(x)) => {
+                    counts[3] += 1;
+                    if res.get(&k) != Some(x) && !open.contains(&k) {
+                        bad("C02", "fill_lookup", format!("the caller-side history has {:?} for this key", res.get(&k)));
+                    }
+                }
+                (Code::Get, Val::None) => {
+                    counts[4] += 1;
+                    // (a retained key of 2Q/ARC may be a ghost: not resident)
+                    if let (Some(o), false) = (res.get(&k), ghosty) {
+                        bad("C02", "fill_lookup", format!("reported absent but v{} was stored and never reported released", o));
+                    }
+                }
+                (Code::Remove, Val::V(x)) => {
+                    counts[5] += 1;
+                    if let Some(o) = res.remove(&k) {
+                        if o != *x && !open.contains(&k) {
+                            bad("C02", "fill_lookup", format!("remove handed back v{} but v{} was stored", x, o));
+                        }
+                    }
+                    if ghosty {
+                        open.insert(k);
+                    }
+                }
+                (Code::Remove, Val::None) => {
+                    if let Some(o) = res.remove(&k) {
+                        if !ghosty {
+                            bad("C02", "fill_lookup", format!("remove found nothing but v{} was stored and never reported released", o));
+                        }
+                    }
+                    if ghosty {
+                        open.insert(k);
+                    }
+                }
+                _ => {}
+            }
+        }
+    }
+    for (p, o, d) in errs {
+        run.viol(p, o, step, op, d);
+    }
+    run.harvest(step, op);
+    let oracles = run.opts.oracles && !run.faulted;
+    let cb_log: Vec<(u32, u64)> = match cb_id {
+        Some(id) => world::cb_take(id),
+        None => Vec::new(),
+    };
+    slots[ti].as_mut().unwrap().last_cb = cb_log;
+    let post = {
+        let s = slots[ti].as_ref().unwrap();
+        run.snapshot(s.s.as_ref(), step, op)
+    };
+    if let Some(post) = &post {
+        for p in post.problems() {
+            let pr = if run.faulted { "C18" } else { "C03" };
+            run.viol(pr, "structure", step, op, p);
+        }
+        if oracles && !aborted && !run.soft {
+            let h = &run.t.header;
+            check_c01(run, h, post, step, op);
+            if have_res {
+                let mut now: std::collections::HashMap<u32, u64> = std::collections::HashMap::new();
+                for l in post.lists.iter() {
+                    for e in &l.ents {
+                        now.insert(e.ident, e.val);
+                    }
+                }
+                let mut lost: Vec<(u32, u64)> = res.iter().filter(|(k, _)| !now.contains_key(k) && !open.contains(k)).map(|(k, v)| (*k, *v)).collect();
+                let mut phantom: Vec<(u32, u64)> = now.iter().filter(|(k, _)| !res.contains_key(k) && !open.contains(k)).map(|(k, v)| (*k, *v)).collect();
+                let mut wrong: Vec<(u32, u64, u64)> =
+                    now.iter().filter(|(k, _)| !open.contains(k)).filter_map(|(k, v)| res.get(k).filter(|o| *o != v).map(|o| (*k, *v, *o))).collect();
+                if kind == Kind::Arc {
+                    // ARC may forget ghosts silently: only the resident entries are conserved. A fill
+                    // of puts over at least `size` distinct keys must leave the cache full.
+                    lost.clear();
+                    let size = post.scalars.first().copied().unwrap_or(0).max(0) as usize;
+                    if put_like && distinct_put.len() >= size && post.resident_count() != size {
+                        let d = format!("{} distinct keys were put into a cache of size {} but only {} entries are resident afterwards", distinct_put.len(), size, post.resident_count());
+                        run.viol("C12", "fill_silent_loss", step, op, d);
+                    }
+                }
+                lost.sort_unstable();
+                phantom.sort_unstable();
+                wrong.sort_unstable();
+                if !lost.is_empty() {
+                    let d = format!(
+                        "{} entries left the cache during the fill without being reported by any result (first: {:?}); {} retained, the results account for {}",
+                        lost.len(),
+                        &lost[..lost.len().min(6)],
+                        now.len(),
+                        res.len()
+                    );
+                    run.viol(if put_like { "C12" } else { "C02" }, "fill_silent_loss", step, op, d);
+                }
+                if !phantom.is_empty() {
+                    let d = format!(
+                        "{} entries are resident after the fill although the results reported them released or never stored (first: {:?})",
+                        phantom.len(),
+                        &phantom[..phantom.len().min(6)]
+                    );
+                    run.viol("C02", "fill_phantom", step, op, d);
+                }
+                if !wrong.is_empty() {
+                    let d = format!("{} resident entries hold a value other than the one most recently stored (first (key, holds, stored): {:?})", wrong.len(), &wrong[..wrong.len().min(6)]);
+                    run.viol("C02", "fill_wrong_value", step, op, d);
+                }
+                run.stats.bump("fill_conservation_checked");
+            }
+        }
+        // the caller-side history restarts from what is observed now
+        let sl = slots[ti].as_mut().unwrap();
+        for (_, s) in sl.shadow.iter_mut() {
+            *s = Sh::Released;
+        }
+        for l in &post.lists {
+            for e in &l.ents {
+                sl.shadow.insert(e.ident, Sh::Stored(e.val));
+            }
+        }
+    }
+    slots[ti].as_mut().unwrap().alpha = post;
+    if oracles && !aborted && !run.soft {
+        check_c04_equation(run, slots, step, op, None);
+    }
+    Val::List(counts.iter().map(|c| Val::Num(*c)).collect())
 }
 
 fn check_structure(run: &mut Run, a: &Alpha, step: i64, op: &Op) {
@@ -1547,7 +1818,7 @@ fn probe_all(run: &mut Run, slots: &mut [Option<Slot>], ti: usize, step: i64, op
         let res = a.resident(k).map(|(_, e)| e.val);
         for (code, owned) in [(Code::Contains, false), (Code::Peek, k % 2 == 0), (Code::PeekMut, false)] {
             let pop = Op::new(code).k(k).owned(owned);
-            world::begin_event(EVENT_BUDGET);
+            world::begin_event(run.budget);
             let r = {
                 let sl = slots[ti].as_mut().unwrap();
                 catch_unwind(AssertUnwindSafe(|| sl.s.apply(&pop)))
